@@ -1223,6 +1223,9 @@ class Conv:
                     continue
                 if at.head == 'name' and isinstance(at.args[0], str) and at.args[0].startswith('@i'):
                     continue
+                if at.head == 'call' and at.extra in (('fn:min',), ('fn:max',)) and len(at.args) >= 2 and \
+                        all(self._integral(x) for x in at.args):
+                    continue        # the smaller / larger of counts and indices
                 # attributes that hold a count in this code base (number of layers / levels / grid points / quadrature
                 # points): declared, not inferred
                 leaf = None
@@ -1310,7 +1313,8 @@ class Conv:
         # f(a, q=c, p=b) for a function of the analysed tree whose definitions all name their parameters (p, q) after the
         # first is f(a, b, c): keyword arguments that continue the positional ones are positional
         sig_ = getattr(t, 'signatures', None)
-        sg_ = sig_(name) if sig_ is not None and name is not None and not any(isinstance(a, ast.Starred) for a in n.args) else None
+        sg_ = sig_(name, recv is not None) if sig_ is not None and name is not None and \
+            not any(isinstance(a, ast.Starred) for a in n.args) else None
         if sg_ is not None and kw and not any(k == '**' for k, _ in kw):
             kd_ = dict(kw)
             args = list(args)       # (the call event keeps the arguments as written)
@@ -1409,6 +1413,17 @@ class Conv:
             return self.power(args[0], args[1])
         if name == 'square' and len(args) == 1:
             return args[0] * args[0]
+        if recv is None and len(args) == 2 and not kw and dotted(n.func) is not None and \
+                dotted(n.func).split('.')[0] in ('np', 'numpy') and name in ('multiply', 'add', 'subtract', 'divide', 'true_divide'):
+            # the ufunc spelling of the arithmetic operators
+            if name == 'multiply':
+                return args[0] * args[1]
+            if name == 'add':
+                return args[0] + args[1]
+            if name == 'subtract':
+                return args[0] - args[1]
+            if not args[1].is_zero():
+                return args[0] / args[1]
         if name in ('logical_and', 'logical_or', 'bitwise_and', 'bitwise_or') and len(args) == 2 and not kw:
             # np.logical_and(a, b) on boolean masks is a & b
             return t.atom('binop', (args[0], args[1]), extra='BitAnd' if name.endswith('and') else 'BitOr')
